@@ -18,6 +18,7 @@ pub fn defs() -> Vec<ScenarioDef> {
 
 // status ordinals
 const OFFERED_DEADLINE: u8 = 1;
+const REQUESTED_DEADLINE: u8 = 2;
 const OFFERED_INCOMPAT: u8 = 3;
 const REQUESTED_INCOMPAT: u8 = 4;
 const SAMPLE_REJECTED: u8 = 6;
@@ -30,6 +31,9 @@ const SUB_MATCHED: u8 = 12;
 struct P {
     /// masks of the listeners installed at [participant, publisher, subscriber, writer, reader]; None = no listener
     masks: Vec<Option<Vec<u8>>>,
+    /// the mask of that level is installed with a nil listener
+    #[serde(default)]
+    nils: Vec<bool>,
     deadline_ms: u64,
 }
 
@@ -47,12 +51,17 @@ fn plan_c33(seed: u64, tier: &str) -> Plan {
     plan.net.fragment_size = 1344;
     plan.net.latency_us = r.range(10, 2000);
     let wk = [OFFERED_DEADLINE, OFFERED_INCOMPAT, PUB_MATCHED];
-    let rk = [REQUESTED_INCOMPAT, SAMPLE_REJECTED, DATA_AVAILABLE, SUB_MATCHED];
+    let rk = [REQUESTED_INCOMPAT, SAMPLE_REJECTED, DATA_AVAILABLE, SUB_MATCHED, REQUESTED_DEADLINE];
     let all: Vec<u8> = wk.iter().chain(rk.iter()).copied().collect();
     let mut sk = rk.to_vec();
     sk.push(DATA_ON_READERS);
     let masks = vec![gen_mask(&mut r, &all), gen_mask(&mut r, &wk), gen_mask(&mut r, &sk), gen_mask(&mut r, &wk), gen_mask(&mut r, &rk)];
-    let l = |i: usize| masks[i].clone().map(|m| L { mask: m });
+    // a mask with a nil listener (NO_LISTENER) at the publisher / subscriber / writer / reader level: the entity takes
+    // the status and nobody is called
+    // (not for a subscriber mask with DATA_ON_READERS: what a nil listener does with that two-step notification is
+    // left open by the property)
+    let nils: Vec<bool> = (0..5).map(|i| i > 0 && masks[i].as_ref().is_some_and(|m: &Vec<u8>| !m.is_empty() && !m.contains(&DATA_ON_READERS)) && r.chance(0.15)).collect();
+    let l = |i: usize| masks[i].clone().map(|m| L { mask: m, nil: nils[i] });
     let deadline_ms = 200;
     let setup = vec![
         Op::CreateParticipant { p: 0, domain: 0, tag: String::new(), announce_ms: r.range(50, 500), q: Q::default(), l: l(0) },
@@ -62,16 +71,21 @@ fn plan_c33(seed: u64, tier: &str) -> Plan {
         Op::CreateSubscriber { p: 0, id: 0, q: Q::default(), l: l(2) },
         Op::CreateWriter { id: 0, publisher: 0, topic: 0, q: Q { reliable: Some(false), history: Some(0), deadline_ns: Some(deadline_ms * 1_000_000), ..Default::default() }, l: l(3) },
         Op::CreateReader { id: 0, subscriber: 0, topic: 1, q: Q { reliable: Some(true), history: Some(0), max_samples: Some(2), max_spi: Some(2), ..Default::default() }, l: l(4) },
+        // a second reader (same listener configuration) with a deadline, for requested-deadline-missed
+        Op::CreateTopic { p: 0, id: 2, name: "D".into(), ty: Ty::Keyed, q: Q::default(), l: None },
+        Op::CreateReader { id: 5, subscriber: 0, topic: 2, q: Q { reliable: Some(true), history: Some(0), deadline_ns: Some(deadline_ms * 1_000_000), ..Default::default() }, l: l(4) },
         Op::CreateParticipant { p: 1, domain: 0, tag: String::new(), announce_ms: r.range(50, 500), q: Q::default(), l: None },
         Op::CreateTopic { p: 1, id: 10, name: "W".into(), ty: Ty::Keyed, q: Q::default(), l: None },
         Op::CreateTopic { p: 1, id: 11, name: "R".into(), ty: Ty::Keyed, q: Q::default(), l: None },
         Op::CreatePublisher { p: 1, id: 1, q: Q::default(), l: None },
         Op::CreateSubscriber { p: 1, id: 1, q: Q::default(), l: None },
+        Op::CreateTopic { p: 1, id: 12, name: "D".into(), ty: Ty::Keyed, q: Q::default(), l: None },
+        Op::CreateWriter { id: 15, publisher: 1, topic: 12, q: Q { reliable: Some(true), history: Some(0), mbt_ms: Some(-1), deadline_ns: Some(deadline_ms * 1_000_000), ..Default::default() }, l: None },
         Op::Sleep { us: 1_500_000 },
     ];
     plan.phases.push(phase("setup", true, vec![script(setup)]));
     // the events, in a seeded order; each followed by a quiescent point
-    let mut events: Vec<u8> = vec![0, 1, 2, 3, 4, 5, 6];
+    let mut events: Vec<u8> = vec![0, 1, 2, 3, 4, 5, 6, 7];
     r.shuffle(&mut events);
     let n_ev = r.usize(3, events.len());
     let mut ops = vec![];
@@ -130,6 +144,13 @@ fn plan_c33(seed: u64, tier: &str) -> Plan {
                     ops.push(Op::R { r: 0, k: ReadKind::Take, max: i32::MAX, m: Masks::default(), h: H::None, key: 0 });
                 }
             }
+            7 => {
+                // requested deadline: the remote writer writes an instance and then stays silent for 1.7 periods
+                ops.push(Op::W { w: 15, k: WKind::Write, key: 3, len: 4, x: uid as i32, name: String::new(), ts: None, h: H::None, uid });
+                uid += 1;
+                ops.push(Op::Sleep { us: deadline_ms * 1700 });
+                ops.push(Op::Mark { label: "requested-deadline".into() });
+            }
             _ => {
                 // one offered deadline miss: write, stay silent for 1.5 periods, unregister
                 ops.push(Op::W { w: 0, k: WKind::Write, key: 1, len: 4, x: uid as i32, name: String::new(), ts: None, h: H::None, uid });
@@ -150,7 +171,7 @@ fn plan_c33(seed: u64, tier: &str) -> Plan {
     plan.phases.push(phase("events", false, vec![script(ops)]));
     plan.max_sim_ms = 600_000;
     plan.max_steps = 2_000_000;
-    plan.params = serde_json::to_value(P { masks, deadline_ms }).unwrap();
+    plan.params = serde_json::to_value(P { masks, nils, deadline_ms }).unwrap();
     plan
 }
 
@@ -174,6 +195,11 @@ fn check_c33(plan: &Plan, out: &Outcome) -> Verdict {
         let chain: [(usize, &'static str); 3] = if writer_side { [(3, "writer"), (1, "publisher"), (0, "participant")] } else { [(4, "reader"), (2, "subscriber"), (0, "participant")] };
         chain.iter().find(|(i, _)| p.masks[*i].as_ref().is_some_and(|m| m.contains(&k))).map(|(_, n)| *n)
     };
+    // the most specific mask that enables the status belongs to a nil listener: nobody is called
+    let silenced = |k: u8, writer_side: bool| -> bool {
+        let chain: [usize; 3] = if writer_side { [3, 1, 0] } else { [4, 2, 0] };
+        chain.iter().find(|i| p.masks[**i].as_ref().is_some_and(|m| m.contains(&k))).is_some_and(|i| p.nils.get(*i).copied().unwrap_or(false))
+    };
     let mut kinds_seen = std::collections::BTreeSet::new();
     with_hist(|h| {
         if h.recs.iter().any(|r| r.res.err().is_some() && !matches!(r.op, Op::Quiesce { .. }) || matches!(r.res, Res::Panic(_))) {
@@ -190,11 +216,26 @@ fn check_c33(plan: &Plan, out: &Outcome) -> Verdict {
             ("on_requested_incompatible_qos", REQUESTED_INCOMPAT, false, count_marks("requested-incompatible"), true),
             ("on_offered_deadline_missed", OFFERED_DEADLINE, true, count_marks("offered-deadline"), true),
         ];
-        for (cb, kind, wside, n, exact) in exp {
-            let target = if wside { wh } else { rh };
+        let rh5: Hd = st.readers.get(&5).map(|x| x.handle).unwrap_or([0; 16]);
+        let mut exp: Vec<(&str, u8, bool, i64, bool, Hd)> = exp.into_iter().map(|(a, b, c, d, e)| (a, b, c, d, e, if c { wh } else { rh })).collect();
+        // requested deadline of the second reader: at least one miss per silent window; the count is C30's subject
+        exp.push(("on_requested_deadline_missed", REQUESTED_DEADLINE, false, count_marks("requested-deadline"), false, rh5));
+        for (cb, kind, wside, n, exact, target) in exp {
             let calls: Vec<&crate::hist::Callback> = h.callbacks.iter().filter(|c| c.what == cb && c.entity == target).collect();
             if n > 0 {
                 kinds_seen.insert(kind);
+            }
+            if silenced(kind, wside) {
+                if let Some(c) = calls.first() {
+                    v.violate("C33", "C33.nil-listener-not-silent", format!("C33.nil-listener-not-silent {cb} got={}", c.level), format!("{cb} was called on the {} listener although the most specific mask enabling the status belongs to an entity with a nil listener, which takes the status silently (masks {:?}, nil {:?})", c.level, p.masks, p.nils));
+                }
+                if n > 0 {
+                    v.probe("silenced_status_changes", 1);
+                }
+                continue;
+            }
+            if !exact && n > 0 && level_for(kind, wside).is_some() && calls.is_empty() {
+                v.violate("C33", "C33.callback-count", format!("C33.callback-count {cb} more=false"), format!("{cb}: the status changed at least {n} time(s) but no listener was called (masks {:?})", p.masks));
             }
             let want_level = level_for(kind, wside);
             match want_level {
@@ -231,6 +272,8 @@ fn check_c33(plan: &Plan, out: &Outcome) -> Verdict {
         let on_readers: Vec<&crate::hist::Callback> = h.callbacks.iter().filter(|c| c.what == "on_data_on_readers" && c.entity == sh).collect();
         let on_avail: Vec<&crate::hist::Callback> = h.callbacks.iter().filter(|c| c.what == "on_data_available" && c.entity == rh).collect();
         if dor {
+            // the subscriber is told about the data of both of its readers
+            let n_data = n_data + count_marks("requested-deadline");
             if on_readers.len() as i64 != n_data {
                 v.violate("C33", "C33.data-on-readers-count", format!("C33.data-on-readers-count more={}", on_readers.len() as i64 > n_data), format!("{n_data} sample(s) arrived one by one but on_data_on_readers was called {} time(s) on the subscriber listener whose mask enables it (masks {:?})", on_readers.len(), p.masks));
             }
@@ -241,7 +284,7 @@ fn check_c33(plan: &Plan, out: &Outcome) -> Verdict {
             if !on_readers.is_empty() {
                 v.violate("C33", "C33.unexpected-callback", "C33.unexpected-callback on_data_on_readers".into(), format!("on_data_on_readers was called although the subscriber mask does not enable it (masks {:?})", p.masks));
             }
-            match level_for(DATA_AVAILABLE, false) {
+            match if silenced(DATA_AVAILABLE, false) { None } else { level_for(DATA_AVAILABLE, false) } {
                 None => {
                     if !on_avail.is_empty() {
                         v.violate("C33", "C33.unexpected-callback", "C33.unexpected-callback on_data_available".into(), format!("on_data_available was called on the {} listener although no mask enables DATA_AVAILABLE (masks {:?})", on_avail[0].level, p.masks));
@@ -262,7 +305,7 @@ fn check_c33(plan: &Plan, out: &Outcome) -> Verdict {
         if n_rej > 0 {
             kinds_seen.insert(SAMPLE_REJECTED);
         }
-        match level_for(SAMPLE_REJECTED, false) {
+        match if silenced(SAMPLE_REJECTED, false) { None } else { level_for(SAMPLE_REJECTED, false) } {
             None => {
                 if !rej.is_empty() {
                     v.violate("C33", "C33.unexpected-callback", "C33.unexpected-callback on_sample_rejected".into(), format!("on_sample_rejected was called on the {} listener although no mask enables it", rej[0].level));
